@@ -102,6 +102,8 @@ func verifCheck(id string, cond bool) {
 	if verifSizeMode {
 		if !cond {
 			if !verifPrefer(verifRealisable(verifSizeRaw, verifSizeGz)) {
+				// at least a payload that can be built, with the nearest gzip length
+				verifPrefer(verifAnd(verifSizeRaw <= verifSizeCap, verifSizeGz <= 2*verifSizeCap))
 				verifAssert(id+verifBeyondReplay, false)
 			}
 		}
@@ -1111,7 +1113,7 @@ func VerifC29Size() {
 	if out.compressed {
 		if verifSizeRaw > 1000*verifSizeGz {
 			verifReach("compressed-more-than-1000-times")
-		} else if verifSizeRaw >= verifSizeGz {
+		} else if verifSizeRaw > verifSizeGz {
 			verifReach("compressed-and-smaller")
 		} else {
 			verifReach("forced-although-not-smaller")
